@@ -687,6 +687,9 @@ func (d *TCPDialer) dial(ctx context.Context, addr string) (*TCPConn, error) {
 		}
 		if err == nil {
 			rec.IP = ip
+			// the caller does not resume in the same instant the connect completes:
+			// whatever else is runnable (a cancellation, a shutdown) may come first
+			simrt.Yield()
 			return c, nil
 		}
 		if firstErr == nil {
